@@ -288,10 +288,8 @@ Fixpoint parse_cigar_loop (fuel : nat) (b : list Z) (op n : Z) (acc : list Z) : 
                              (fun '(n2, acc2) => parse_cigar_loop f rest' op1 n2 acc2)
               end
           | [] =>
-              (* no operation letter found: op and n keep their previous values *)
-              if op =? sam_lastCigar then Err 0
-              else obind (cig_emit (cig_emit_fuel n) op n acc)
-                         (fun '(n2, acc2) => parse_cigar_loop f tl_b op n2 acc2)
+              (* no operation letter found: "length without operation" *)
+              Err 0
           end
       end
   end.
@@ -300,7 +298,8 @@ Definition parse_cigar (b : list Z) : outcome (list Z) :=
   if beq b [42] then Ok [] else parse_cigar_loop (S (length b)) b 0 0 [].
 
 (** CigarOpType.Consumes: consume[ct], index checked *)
-Definition consumes (ct : Z) : outcome (Z * Z) :=
+Definition consumes (ct0 : Z) : outcome (Z * Z) :=
+  let ct := if sam_lastCigar <? ct0 then sam_lastCigar else ct0 in
   match nth_error sam_consume (Z.to_nat ct) with
   | Some qr => if ct <? 0 then Panic 1 else Ok qr
   | None => Panic 1
@@ -481,6 +480,23 @@ End FloatText.
 
 (* ----------------------------------------------------------------- record *)
 
+(** the SEQ field in UnmarshalSAM: NewSeq unless "*", then the CIGAR check *)
+Definition parse_seq_field (cigar : list Z) (f9 : list Z) : outcome (Z * list Z) :=
+  if negb (beq f9 [42]) then
+    let sl := zlen f9 in
+    match cigar with
+    | [] => Ok (sl, contract f9)
+    | _ => obind (cigar_is_valid cigar sl) (fun v => if v then Ok (sl, contract f9) else Err 0)
+    end
+  else Ok (0, []).
+
+(** the QUAL field in UnmarshalSAM: -33, or 0xff fill when "*" and a sequence is present *)
+Definition parse_qual_field (f10 : list Z) (seqlen : Z) : option (list Z) :=
+  if negb (beq f10 [42]) then
+    match f10 with [] => None | _ => Some (map (fun c => u8 (c - 33)) f10) end
+  else if negb (seqlen =? 0) then Some (repeat 255 (Z.to_nat seqlen))
+  else None.
+
 Record samrec := mk_rec {
   r_name : list Z;
   r_flags : Z;
@@ -612,18 +628,8 @@ Section Record.
         obind (if beq f2 f6 || beq f6 [61] then Ok ref else reference_for_name h f6) (fun mref =>
         obind (atoi_o f7) (fun mpos1 =>
         obind (atoi_o f8) (fun tlen =>
-        obind (if negb (beq f9 [42]) then
-                 let sl := zlen f9 in
-                 match cigar with
-                 | [] => Ok (sl, contract f9)
-                 | _ => obind (cigar_is_valid cigar sl) (fun v => if v then Ok (sl, contract f9) else Err 0)
-                 end
-               else Ok (0, [])) (fun '(seqlen, seq) =>
-        let qual :=
-          if negb (beq f10 [42]) then
-            match f10 with [] => None | _ => Some (map (fun c => u8 (c - 33)) f10) end
-          else if negb (seqlen =? 0) then Some (repeat 255 (Z.to_nat seqlen))
-          else None in
+        obind (parse_seq_field cigar f9) (fun '(seqlen, seq) =>
+        let qual := parse_qual_field f10 seqlen in
         let ql := match qual with Some q => zlen q | None => 0 end in
         if negb (ql =? 0) && negb (ql =? seqlen) then Err 0
         else
